@@ -67,8 +67,11 @@ def run(seed=0, n=200):
     sys.path.insert(0, os.path.join(os.environ.get("AIOFTP_REPO", "/repo"), "src"))
     import aioftp
 
+    import z3
+
     from .core import Ctx, PathEnd, PyRaise, Unsupported
     from .interp import Interp
+    from .values import Builtin
 
     rnd = random.Random(seed)
     repo = os.environ.get("AIOFTP_REPO", "/repo")
@@ -80,6 +83,22 @@ def run(seed=0, n=200):
     perm_cls = it.modules["aioftp.server"].attrs["Permission"]
     ac_cls = it.modules["aioftp.server"].attrs["AvailableConnections"]
     real_client = aioftp.BaseClient()
+    user_cls = it.modules["aioftp.server"].attrs["User"]
+    throttle_cls = it.modules["aioftp.common"].attrs["Throttle"]
+    client_obj = it.call(cl_cls, [], {"path_io_factory": Builtin("factory", lambda i, a, k: None)})
+
+    def _pathstr(pv):
+        n = _norm(pv)
+        return (n[1] if n[1] else "") + "/".join(n[2]) if n[2] or n[1] else "."
+
+    def _num(v):
+        n = _norm(v)
+        if isinstance(n, str) and n.startswith("?"):
+            s = z3.simplify(v.t)
+            if z3.is_rational_value(s):
+                f = s.numerator_as_long() / s.denominator_as_long()
+                return int(f) if f == int(f) and v.k == "int" else f
+        return n
     alpha = ['"', '""', " ", "a", "b", "/", "x", "-", "rwx", "rw-", "s", "S", "t", "1", "2", "250", "\u00b2"]
 
     def rstr(k=6):
@@ -136,7 +155,55 @@ def run(seed=0, n=200):
             return tuple(out)
 
         cases.append(("AvailableConnections", ac_real2, ac_sym2))
+        # ---- MLSx line parser (name after the first space, facts lower-cased)
+        nm = rnd.choice(["f", "a b", " x", "é", "k=v;", "a;b"])
+        ml = (rnd.choice(["Size=3;Type=file;", "type=dir;MODIFY=20200101000000;", "", "Type=file;Size=0;Unix.mode=0644;"]) + " " + nm + rnd.choice(["\r\n", "\n", ""])).encode()
+        cases.append(("parse_mlsx_line", lambda ml=ml: (lambda r: (str(r[0]), tuple(sorted(r[1].items()))))(real_client.parse_mlsx_line(ml)), lambda ml=ml: (lambda r: (_pathstr(r[0]), tuple(sorted((k, _norm(v)) for k, v in r[1].items()))))(it.call(it.getattr_(client_obj, "parse_mlsx_line"), [ml], {}))))
+        # ---- nearest-ancestor permission lookup
+        table = [("/", True, True)] + [("/" + "/".join(rnd.choice(["a", "b", "ab"]) for _ in range(rnd.randint(1, 2))), rnd.random() < 0.5, rnd.random() < 0.5) for _ in range(rnd.randint(0, 2))]
+        q = "/" + "/".join(rnd.choice(["a", "b", "ab"]) for _ in range(rnd.randint(0, 3)))
+
+        def perm_real(table=table, q=q):
+            import asyncio as _a
+
+            u = aioftp.User(permissions=[aioftp.Permission(p, readable=r, writable=w) for p, r, w in table])
+            pr = _a.run(u.get_permissions(q))
+            return (str(pr.path), pr.readable, pr.writable)
+
+        def perm_sym(table=table, q=q):
+            perms = [it.call(perm_cls, [p], {"readable": r, "writable": w}) for p, r, w in table]
+            u = it.call(user_cls, [], {"permissions": perms})
+            pr = it.await_(it.call(it.getattr_(u, "get_permissions"), [q], {}))
+            return (_pathstr(pr.fields["path"]), _norm(pr.fields["readable"]), _norm(pr.fields["writable"]))
+
+        cases.append(("User.get_permissions", perm_real, perm_sym))
+        # ---- throttle accounting
+        lim = rnd.choice([None, 0, 1, 10, 1000])
+        seq = []
+        t = 0.0
+        for _ in range(4):
+            t += rnd.choice([0.0, 0.5, 3.0, 11.0, 12.5])
+            seq.append((rnd.choice([0, 1, 7, 1000]), t))
+
+        def th_real(lim=lim, seq=tuple(seq)):
+            th = aioftp.Throttle(limit=lim, reset_rate=10)
+            out = []
+            for n, at in seq:
+                th.append(b"x" * n, at)
+                out.append((th._sum, th._start))
+            return tuple(out)
+
+        def th_sym(lim=lim, seq=tuple(seq)):
+            th = it.call(throttle_cls, [], {"limit": lim, "reset_rate": 10})
+            out = []
+            for n, at in seq:
+                it.call(it.getattr_(th, "append"), [b"x" * n, at], {})
+                out.append((_num(th.fields["_sum"]), _num(th.fields["_start"])))
+            return tuple(out)
+
+        cases.append(("Throttle.append", th_real, th_sym))
     mismatches = []
+    unsup, unsup_why = {}, {}
     counts = {}
     for name, real, sym in cases:
         try:
@@ -150,9 +217,12 @@ def run(seed=0, n=200):
         except (Unsupported, PathEnd) as e:
             r2 = ("unsupported", str(e))
         counts[name] = counts.get(name, 0) + 1
-        if r1 != r2 and r2[0] != "unsupported":
+        if r2[0] == "unsupported":
+            unsup[name] = unsup.get(name, 0) + 1
+            unsup_why.setdefault(name, r2[1][:120])
+        elif r1 != r2:
             mismatches.append((name, r1, r2))
-    return {"cases": sum(counts.values()), "per_function": counts, "mismatches": mismatches[:5]}
+    return {"cases": sum(counts.values()), "per_function": counts, "outside_the_subset": unsup, "why": unsup_why, "mismatches": mismatches[:5]}
 
 
 if __name__ == "__main__":
